@@ -123,6 +123,9 @@ type (
 	ExprAttr      struct{ Name, ID string }
 	SpreadAttr    struct{ ID string }
 	CSSClassAttr  struct{ Extra string }    // class={ "Extra", cssCls() } — a css template of the library
+	// ClassExprAttr is class={ item, item, ... } over the container forms templ accepts. The class names are
+	// "k0".."k2" (constants and the valuation-dependent a.K(id)), so that names collide under some valuations.
+	ClassExprAttr struct{ Items []ClassItem }
 	ScriptAttr    struct{ Name, ID string } // Name={ scr(a.S("id")) } — a script template of the library (Name is an on* attribute)
 	CondAttr      struct {
 		Cond       string
@@ -131,6 +134,15 @@ type (
 	}
 )
 
+// ClassItem kinds: "const" Name | "dyn" a.K(ID) | "kv" templ.KV(Name, a.B(Cond)) | "kvdyn" templ.KV(a.K(ID), a.B(Cond)) |
+// "map" map[string]bool{Pairs: name → a.B(cond)} | "slice" []string{Name, a.K(ID)} | "css" cssCls()
+type ClassItem struct {
+	Kind           string
+	Name, ID, Cond string
+	Pairs          [][2]string
+}
+
+func (ClassExprAttr) attr() {}
 func (ConstAttr) attr()     {}
 func (BoolConstAttr) attr() {}
 func (BoolExprAttr) attr()  {}
@@ -314,6 +326,31 @@ func printAttr(a Attr, ind int) string {
 		return `{ templ.Attributes(a.Attrs("` + a.ID + `"))... }`
 	case CSSClassAttr:
 		return `class={ "` + a.Extra + `", cssCls() }`
+	case ClassExprAttr:
+		var items []string
+		for _, it := range a.Items {
+			switch it.Kind {
+			case "const":
+				items = append(items, `"`+it.Name+`"`)
+			case "dyn":
+				items = append(items, `a.K("`+it.ID+`")`)
+			case "kv":
+				items = append(items, `templ.KV("`+it.Name+`", a.B("`+it.Cond+`"))`)
+			case "kvdyn":
+				items = append(items, `templ.KV(a.K("`+it.ID+`"), a.B("`+it.Cond+`"))`)
+			case "map":
+				var ps []string
+				for _, p := range it.Pairs {
+					ps = append(ps, `"`+p[0]+`": a.B("`+p[1]+`")`)
+				}
+				items = append(items, `map[string]bool{`+strings.Join(ps, ", ")+`}`)
+			case "slice":
+				items = append(items, `[]string{"`+it.Name+`", a.K("`+it.ID+`")}`)
+			case "css":
+				items = append(items, `cssCls()`)
+			}
+		}
+		return `class={ ` + strings.Join(items, ", ") + ` }`
 	case ScriptAttr:
 		return a.Name + `={ scr(a.S("` + a.ID + `")) }`
 	case CondAttr:
@@ -494,6 +531,117 @@ type Interp struct {
 	kid []string
 	// definitions already emitted in this render (css class rule, script function)
 	cssDone, scriptDone bool
+	// HoistAllCondClasses selects the defect-aware model of the generator as it is: the class expressions of
+	// conditional attributes are evaluated (and their css rules emitted) in front of the element whatever the
+	// conditions say. The reference semantics evaluates them only in the branch that is taken.
+	HoistAllCondClasses bool
+}
+
+// classValue evaluates a class expression: the (name, enabled) pairs in order; the last setting of a name
+// decides whether it is enabled, names appear in the order of their first occurrence, each once.
+func (ip *Interp) classValue(a ClassExprAttr, log bool) (value string, css bool) {
+	type ne struct {
+		n string
+		e bool
+	}
+	var seq []ne
+	lg := func(s string) {
+		if log {
+			ip.A.Log = append(ip.A.Log, s)
+		}
+	}
+	for _, it := range a.Items {
+		switch it.Kind {
+		case "const":
+			seq = append(seq, ne{it.Name, true})
+		case "dyn":
+			lg("K:" + it.ID)
+			seq = append(seq, ne{ip.A.KVal(it.ID), true})
+		case "kv":
+			lg("B:" + it.Cond)
+			seq = append(seq, ne{it.Name, ip.A.BoolVal(it.Cond)})
+		case "kvdyn":
+			lg("K:" + it.ID)
+			lg("B:" + it.Cond)
+			seq = append(seq, ne{ip.A.KVal(it.ID), ip.A.BoolVal(it.Cond)})
+		case "map":
+			ps := append([][2]string{}, it.Pairs...)
+			for _, p := range ps {
+				lg("B:" + p[1])
+			}
+			sort.Slice(ps, func(i, j int) bool { return ps[i][0] < ps[j][0] })
+			for _, p := range ps {
+				seq = append(seq, ne{p[0], ip.A.BoolVal(p[1])})
+			}
+		case "slice":
+			lg("K:" + it.ID)
+			seq = append(seq, ne{it.Name, true}, ne{ip.A.KVal(it.ID), true})
+		case "css":
+			css = true
+			seq = append(seq, ne{"\x00CSSCLS", true})
+		}
+	}
+	enabled := map[string]bool{}
+	for _, x := range seq {
+		enabled[x.n] = x.e
+	}
+	done := map[string]bool{}
+	var names []string
+	for _, x := range seq {
+		if enabled[x.n] && !done[x.n] {
+			done[x.n] = true
+			names = append(names, x.n)
+		}
+	}
+	return strings.Join(names, " "), css
+}
+
+// HasCondClass reports whether a class expression stands inside a conditional attribute somewhere in ns.
+func HasCondClass(ns []Node) bool {
+	found := false
+	var attrs func(as []Attr, inCond bool)
+	attrs = func(as []Attr, inCond bool) {
+		for _, a := range as {
+			switch a := a.(type) {
+			case ClassExprAttr:
+				if inCond {
+					found = true
+				}
+			case CondAttr:
+				attrs(a.Then, true)
+				attrs(a.Else, true)
+			}
+		}
+	}
+	var walk func(ns []Node)
+	walk = func(ns []Node) {
+		for _, n := range ns {
+			switch n := n.(type) {
+			case Elem:
+				attrs(n.Attrs, false)
+				walk(n.Kids)
+			case Void:
+				attrs(n.Attrs, false)
+			case If:
+				walk(n.Then)
+				for _, e := range n.ElseIfs {
+					walk(e.Then)
+				}
+				walk(n.Else)
+			case For:
+				walk(n.Body)
+			case Switch:
+				for _, c := range n.Cases {
+					walk(c.Body)
+				}
+				walk(n.Default)
+			case Call:
+				walk(n.Block)
+			}
+		}
+	}
+	walk(ns)
+	return found
 }
 
 // defs returns what is emitted in front of an element for its css-template classes and script-template handlers
@@ -502,6 +650,25 @@ func (ip *Interp) defs(as []Attr) string {
 	var b strings.Builder
 	css, scr := false, false
 	var ids []string
+	// class expressions are evaluated once, in front of the element (RenderCSSItems), also those of conditional attributes
+	var classes func(as []Attr, reached bool)
+	classes = func(as []Attr, reached bool) {
+		for _, a := range as {
+			switch a := a.(type) {
+			case ClassExprAttr:
+				if reached || ip.HoistAllCondClasses {
+					if _, hasCSS := ip.classValue(a, true); hasCSS {
+						css = true
+					}
+				}
+			case CondAttr:
+				t := ip.A.BoolVal(a.Cond)
+				classes(a.Then, reached && t)
+				classes(a.Else, reached && !t)
+			}
+		}
+	}
+	classes(as, true)
 	for _, a := range as {
 		switch a := a.(type) {
 		case CSSClassAttr:
@@ -572,6 +739,9 @@ func (ip *Interp) attrs(as []Attr) (kv [][2]string, bools map[int]bool) {
 				kv = append(kv, [2]string{a.Name, ip.A.Val(a.ID)})
 			case CSSClassAttr:
 				kv = append(kv, [2]string{"class", a.Extra + " \x00CSSCLS"})
+			case ClassExprAttr:
+				v, _ := ip.classValue(a, false) // evaluated in front of the element
+				kv = append(kv, [2]string{"class", v})
 			case ScriptAttr:
 				ip.A.Log = append(ip.A.Log, "S:"+a.ID)
 				js, _ := json.Marshal(ip.A.Val(a.ID))
@@ -739,11 +909,16 @@ func (ip *Interp) node(n Node, children func() string) string {
 }
 
 // Expect returns the anchored regular expression for template body ns under valuation v and the expected log.
-func Expect(ns []Node, v rt.A) (*regexp.Regexp, []string) {
+func Expect(ns []Node, v rt.A) (*regexp.Regexp, []string) { return expect(ns, v, false) }
+
+// ExpectHoisted is the defect-aware model (Interp.HoistAllCondClasses).
+func ExpectHoisted(ns []Node, v rt.A) (*regexp.Regexp, []string) { return expect(ns, v, true) }
+
+func expect(ns []Node, v rt.A, hoistAll bool) (*regexp.Regexp, []string) {
 	ns = Normalize(ns, true)
 	a := v
 	a.Log = nil
-	ip := &Interp{A: &a}
+	ip := &Interp{A: &a, HoistAllCondClasses: hoistAll}
 	re := "^ ?" + ip.Seq(ns, nil) + " ?$"
 	return regexp.MustCompile(re), a.Log
 }
